@@ -9,6 +9,11 @@ mod util;
 
 use common::Session;
 
+/// `--only-part <name>` restricts a run to one part (timing / sanitizer passes).
+pub fn want(s: &Session, part: &str) -> bool {
+    s.args.extra.get("only-part").map_or(true, |p| p == part)
+}
+
 fn main() {
     let mut s = Session::new("recon");
     // Debugging aid: `--probe-text '<recon>' [--probe-text2 '<recon>']` prints what the real code
@@ -33,6 +38,11 @@ fn main() {
     if cfg!(miri) || s.args.scale < 0.05 {
         util::SHRINK_BUDGET.store(30, std::sync::atomic::Ordering::Relaxed);
         gen::SMALL.store(true, std::sync::atomic::Ordering::Relaxed);
+    }
+    if cfg!(miri) {
+        // No witness shrinking under the interpreter (seconds per parse): signatures of an
+        // interpreted run may therefore name several features of an unshrunk witness.
+        util::SHRINK_BUDGET.store(0, std::sync::atomic::Ordering::Relaxed);
     }
     match s.prop() {
         "C09" => c09::run(&mut s),
